@@ -3,6 +3,7 @@
    property C03 on the observed replies. *)
 From Coq Require Import List NArith ZArith Bool Lia.
 From Cfg Require Export Harness.C02.
+From Cfg Require Proofs.MemStream.
 Import ListNotations.
 Open Scope N_scope.
 
@@ -47,5 +48,34 @@ Definition step_ok (s : rstep) : bool :=
   end.
 
 Definition oracle (c : case) : bool := forallb step_ok (c_steps c).
+
+(* the same, as a proposition *)
+Definition CacheOn (off ep : N) (fl : list N) (full : out) (recovered : bool) (pubs : list item) : Prop :=
+  exists items top epc, full = OHist items top epc /\
+    (pubs = [] \/ exists p, pubs = [p] /\ newest_visible fl items = Some p) /\
+    (recovered = true <-> newest_present items top = true \/ holds_position off ep top epc = true).
+
+Lemma cache_ok_on_sound : forall off ep fl full recovered pubs,
+  cache_ok_on off ep fl full recovered pubs = true <-> CacheOn off ep fl full recovered pubs.
+Proof.
+  intros. unfold cache_ok_on, CacheOn.
+  destruct full as [| items top epc | |]; try (split; [discriminate|intros (i & t & e & X & _); discriminate]).
+  rewrite andb_true_iff. split.
+  - intros [A B]. exists items, top, epc. split; auto. split.
+    + destruct pubs as [|p [|q r]]; auto; [|discriminate].
+      destruct (newest_visible fl items) as [nv|]; [|discriminate].
+      right. exists p. split; auto. f_equal. symmetry.
+      apply Proofs.MemStream.item_eqb_eq. rewrite <- A.
+      unfold item_eqb. rewrite (N.eqb_sym (i_off p)), (N.eqb_sym (i_id p)). reflexivity.
+    + apply eqb_prop in B. rewrite B. split; intro H; [apply orb_true_iff in H; exact H|apply orb_true_iff; exact H].
+  - intros (i & t & e & X & A & B). inversion X; subst i t e. split.
+    + destruct A as [-> | (p & -> & ->)]; auto. apply Proofs.MemStream.item_eqb_eq. reflexivity.
+    + apply eqb_true_iff.
+      destruct (newest_present items top || holds_position off ep top epc) eqn:E.
+      * apply B. apply orb_true_iff. exact E.
+      * destruct recovered; auto. exfalso.
+        assert (T : newest_present items top = true \/ holds_position off ep top epc = true) by (apply B; reflexivity).
+        apply orb_true_iff in T. congruence.
+Qed.
 
 Definition run (cs : list case) := failing corr oracle cs.
